@@ -282,14 +282,18 @@ func runWhole(circ *circuit.Circuit, x, y *big.Int, o sessOpts) *sessResult {
 
 // runStream runs one streaming session: compiler.Stream against circuit.StreamEvaluator.
 // The output types of both sides are returned in gIO / eIO.
-func runStream(src string, x, y []string, o sessOpts) *sessResult {
+func runStream(src string, x, y []string, o sessOpts, sizes ...[][]int) *sessResult {
 	var gIO, eIO circuit.IO
+	var inputSizes [][]int
+	if len(sizes) > 0 {
+		inputSizes = sizes[0]
+	}
 	res := runSession(o,
 		func(cfg *env.Config, conn *p2p.Conn, oti ot.OT) ([]*big.Int, error) {
 			params := utils.NewParams()
 			params.Config = cfg
 			params.MPCLCErrorLoc = false
-			io, out, err := compiler.New(params).Stream(conn, oti, "{verif}", strings.NewReader(src), x, nil)
+			io, out, err := compiler.New(params).Stream(conn, oti, "{verif}", strings.NewReader(src), x, inputSizes)
 			gIO = io
 			return out, err
 		},
